@@ -221,6 +221,9 @@ class Run:
             if signature not in [k[0] for k in self.known_hits]:
                 self.known_hits.append((signature, kf))
             return False
+        self.count("violation:" + signature)
+        if signature in [v[0] for v in self.violations]:
+            return True     # one replay per signature; occurrences are counted
         self.violations.append((signature, replay_obj, no_input))
         return True
 
